@@ -394,6 +394,7 @@ func (f *Frame) execInstr(in ssa.Instruction, reach string, st *State) {
 		f.next(x, reach, st)
 	case *ssa.Range:
 		f.setVal(x, f.val(x.X))
+		f.rangeInit(x, st)
 	case *ssa.Panic:
 		if !f.panicExpected(x, reach) {
 			f.oblig("explicit-panic", x.Pos(), f.srcTextOr(x.Pos(), "panic"), reach, "false")
@@ -1148,6 +1149,7 @@ func (f *Frame) next(x *ssa.Next, reach string, st *State) {
 	f.ctx.Fact(Implies(okc, f.ctx.typeFacts(k, mt.Key(), st.alloc)))
 	f.ctx.Fact(Implies(okc, f.ctx.typeFacts(v, mt.Elem(), st.alloc)))
 	f.mapLenFacts(st, m, mt)
+	f.rangeAdvance(x, okc, k, m, hd, mt, st)
 	f.tuples[x] = []string{okc, k, v}
 }
 
